@@ -182,6 +182,16 @@ Section Paths.
     | x :: p', y :: l' => str_eqb x y && seg_prefix p' l'
     | _ :: _, [] => false
     end.
+  (* A VirtualOS over its lifetime: Chdir replaces the working directory (virtual.go performs no validation),
+     every other call looks its path up.  The observation of a history: one lookup result per use. *)
+  Inductive vop := VChdir (d : str) | VUse (p : str).
+  Fixpoint vrun (keys : list str) (cwd : str) (ops : list vop) : list (option (str * str)) :=
+    match ops with
+    | [] => []
+    | VChdir d :: r => vrun keys d r
+    | VUse p :: r => find_mount cwd keys p :: vrun keys cwd r
+    end.
+  Definition is_use (o : vop) : bool := match o with VUse _ => true | VChdir _ => false end.
 End Paths.
 
 (* byte instance used by extraction and by the in-kernel witnesses *)
